@@ -11,7 +11,7 @@
 use serde_json::{json, Value};
 use std::collections::BTreeSet;
 use std::panic::{catch_unwind, AssertUnwindSafe};
-use umya_spreadsheet::helper::coordinate::{coordinate_from_index, string_from_column_index};
+use umya_spreadsheet::helper::coordinate::coordinate_from_index;
 use umya_spreadsheet::structs::{Cell, PatternValues, Spreadsheet, Style, Worksheet};
 use uverif::*;
 
@@ -117,14 +117,7 @@ fn touched(st: &Value, hi: (u32, u32)) -> Vec<(i64, i64, i64, i64)> {
     let (hc, hr) = (hi.0.min(MAXC) as i64, hi.1.min(MAXR) as i64);
     match s(st, "a") {
         "GetCellMut" | "SetCell" | "RemoveCell" | "SetStyle" => vec![(i(st, "r"), i(st, "c"), i(st, "r"), i(st, "c"))],
-        "SetStyleByRange" => {
-            let g = &st["g"];
-            match s(g, "k") {
-                "rect" => vec![g4(g)],
-                "rows" => vec![(i(g, "r1"), 1, i(g, "r2"), hc.max(1))],
-                _ => vec![(1, i(g, "c1"), hr.max(1), i(g, "c2"))],
-            }
-        }
+        "SetStyleByRange" => vec![g4(&st["g"])],
         "Insert" | "Remove" => {
             let (p, n) = (i(st, "p"), i(st, "n"));
             if s(st, "ax") == "row" {
@@ -342,7 +335,6 @@ fn observe(book: &Spreadsheet, st: &Value, before: &[(u32, u32)], want_save: boo
     let obs = json!({"hm": hm, "coll": coll, "sorted": sorted, "look": look, "byrow": byrow, "bycol": bycol,
                      "ranges": ranges, "high": high, "dim": dim, "rowtab": rowtab, "rowlist": rowlist, "cols": cols,
                      "saveout": saveout, "xlsx": hex, "qp": qp.join(",")});
-    let _ = string_from_column_index;
     (obs, qp)
 }
 
@@ -390,12 +382,7 @@ fn apply(book: &mut Spreadsheet, st: &Value) {
         }
         "SetStyleByRange" => {
             let g = &st["g"];
-            let rng = match s(g, "k") {
-                "rect" => rect_str(u(g, "r1"), u(g, "c1"), u(g, "r2"), u(g, "c2")),
-                "rows" => format!("{}:{}", u(g, "r1"), u(g, "r2")),
-                "cols" => format!("{}:{}", string_from_column_index(&u(g, "c1")), string_from_column_index(&u(g, "c2"))),
-                k => panic!("unknown range kind {}", k),
-            };
+            let rng = rect_str(u(g, "r1"), u(g, "c1"), u(g, "r2"), u(g, "c2"));
             ws.set_style_by_range(&rng, style_of(s(st, "s")));
         }
         "Move" | "Copy" => {
